@@ -236,7 +236,7 @@ SOLVED9 = [
 def sudoku_hints(text, r):
     sq = r * r
     chars = [c for c in text if not c.isspace()]
-    return [(int(c) if c.isdigit() else 0) for c in chars[: sq * sq]] + [0] * max(0, sq * sq - len(chars))
+    return [(int(c) if c in "0123456789" else 0) for c in chars[: sq * sq]] + [0] * max(0, sq * sq - len(chars))
 
 
 def c17(run):
@@ -252,7 +252,7 @@ def c17(run):
     puzzles.append((1, "1", "r1-given"))
     puzzles.append((2, "", "r2-empty"))
     sols2 = ["1234341221434321", "1234341243212143", "2143341212344321", "4321123421433412"]
-    blanks = [".", "_", "x", "*", "-", "\"", "?", "o"]
+    blanks = [".", "_", "x", "*", "-", "\"", "?", "o", "\u00b7", "\u25a1", "\u00e9", "\U0001f7e6"]   # incl. 2-, 3- and 4-byte characters
     singles = [(c, dd) for c in range(16) for dd in range(1, 5)]
     for (c, dd) in (singles if t else rnd.sample(singles, 6)):
         b = rnd.choice(blanks)
@@ -266,8 +266,8 @@ def c17(run):
         if kind == 0:     # contradictory
             j = rnd.choice(keep)
             txt = txt[:j] + str((int(sol[j]) % 4) + 1) + txt[j + 1:]
-        elif kind == 1:   # layout
-            txt = "\n".join(txt[k:k + 4] for k in range(0, 16, 4)) + "\n"
+        elif kind == 1:   # layout (ASCII and non-ASCII whitespace)
+            txt = rnd.choice(["\n", " \n", "\u00a0\n", "\t", "\u3000"]).join(txt[k:k + 4] for k in range(0, 16, 4)) + "\n"
         elif kind == 2:   # short input
             txt = txt[: rnd.randint(3, 12)]
         elif kind == 3:   # over-long input, digits beyond the square
